@@ -260,7 +260,10 @@ def evaluate(c, exe, groups, refok, tier, count=True):
         return gkey[k]
     rel = []
     for (name, coefs, bases, g) in groups:
-        rel.append((name, {gid(bases[k]): v for k, v in coefs.items()} if coefs else {}, gid(g), coefs, bases, g))
+        gco = {}
+        for k, v in (coefs or {}).items():          # two base graphs may be IDENTICAL (same id): their coefficients add up
+            gco[gid(bases[k])] = gco.get(gid(bases[k]), 0) + v
+        rel.append((name, gco, gid(g), coefs, bases, g))
     flat = [l for ls in glines for l in ls]
     # load balance: lib.run_lines cuts the list into `par` contiguous chunks, so deal the cases (longest first) round-robin
     par = lib.NPROC * 2 if len(flat) > 64 else lib.NPROC
